@@ -120,27 +120,27 @@ func (l Leaf) ResourcesOwner() *Node {
 
 // Layout is the physical-layout vector of a file.
 type Layout struct {
-	EOL        string   // "\n" | "\r\n" | "\r"
-	Tight      bool     // minimal white space
-	XRef       []string // per revision: table | stream
-	ObjStm     string   // none | some | all   (only honoured in revisions with a stream xref)
-	LenMode    string   // direct | ind-before | ind-after | ind-objstm | mixed
-	Filter     string   // none | Fl | AHx | A85 | FlPNG | A85Fl | AHxFl | chain3 | mixed
-	Split      int      // content streams per page (1..4)
-	SplitNoWS  bool     // split without white space at the boundary
-	BigContent int      // pad content to at least this many bytes (0 none) — straddles read-ahead sizes
-	Numbering  string   // dense | sparse | permuted
-	Shuffle    bool     // object order in file shuffled
-	ResIndirect bool    // Resources / Font dictionaries as indirect objects
-	ContentsArrayIndirect bool // /Contents array as an indirect object
-	XRefPredictor bool  // xref streams use PNG predictor 12
-	GapsAsFree bool
-	ObjStmExtends bool // chain object streams of a revision with /Extends
+	EOL                   string   // "\n" | "\r\n" | "\r"
+	Tight                 bool     // minimal white space
+	XRef                  []string // per revision: table | stream
+	ObjStm                string   // none | some | all   (only honoured in revisions with a stream xref)
+	LenMode               string   // direct | ind-before | ind-after | ind-objstm | mixed
+	Filter                string   // none | Fl | AHx | A85 | FlPNG | A85Fl | AHxFl | chain3 | mixed
+	Split                 int      // content streams per page (1..4)
+	SplitNoWS             bool     // split without white space at the boundary
+	BigContent            int      // pad content to at least this many bytes (0 none) — straddles read-ahead sizes
+	Numbering             string   // dense | sparse | permuted
+	Shuffle               bool     // object order in file shuffled
+	ResIndirect           bool     // Resources / Font dictionaries as indirect objects
+	ContentsArrayIndirect bool     // /Contents array as an indirect object
+	XRefPredictor         bool     // xref streams use PNG predictor 12
+	GapsAsFree            bool
+	ObjStmExtends         bool // chain object streams of a revision with /Extends
 	// content-level spellings (text unchanged): comments between tokens, the ' and "
 	// show operators, TJ arrays with kerning numbers, trailing lines moved into a Form XObject
 	Comments, Quotes, TJKern, Forms bool
-	BoxIndirect bool // MediaBox arrays hold indirect references to number objects
-	ObjStmFilter string // "" seed-chosen | none | Fl | FlP1 (Flate with an explicit /Predictor 1)
+	BoxIndirect                     bool   // MediaBox arrays hold indirect references to number objects
+	ObjStmFilter                    string // "" seed-chosen | none | Fl | FlP1 (Flate with an explicit /Predictor 1)
 	// Mutate: a semantic fault applied while writing revision MutateRev (C02 only)
 	Mutate    *Mutation
 	MutateRev int
@@ -148,22 +148,22 @@ type Layout struct {
 
 // Built is the result of building a file.
 type Built struct {
-	Bytes  []byte
-	Fields []Field
-	NumOf  map[string]int // entity key -> object number
-	XRefOffsets []int64
+	Bytes        []byte
+	Fields       []Field
+	NumOf        map[string]int // entity key -> object number
+	XRefOffsets  []int64
 	StreamRanges map[string][2]int
-	Features []string // layout features actually present
-	ObjStmN   [][]int // per revision: entries per object-stream container
-	XRefCount []int   // per revision: entries of the xref stream (0 for a classic table)
+	Features     []string // layout features actually present
+	ObjStmN      [][]int  // per revision: entries per object-stream container
+	XRefCount    []int    // per revision: entries of the xref stream (0 for a classic table)
 }
 
 // Edit is one incremental-update step applied to the logical document.
 type Edit struct {
-	Kind string // replace-content | append-page | delete-page | touch (rewrite an unchanged object) | delete-readd
-	Page int    // leaf index (for replace/delete)
-	NewPage *PageL
-	Parent  int // node id to append under
+	Kind     string // replace-content | append-page | delete-page | touch (rewrite an unchanged object) | delete-readd
+	Page     int    // leaf index (for replace/delete)
+	NewPage  *PageL
+	Parent   int // node id to append under
 	NewLines []Line
 }
 
@@ -280,7 +280,9 @@ func contentTokens(p *PageL, fontName func(int) string, r *rand.Rand, cs content
 			t = append(t, "% note "+fmt.Sprint(r.Intn(1000))+" (not) text Tj"+cs.eol)
 		}
 	}
-	num := func(f float64) string { return strings.TrimSuffix(strings.TrimSuffix(fmt.Sprintf("%.3f", f), "0"), "0") }
+	num := func(f float64) string {
+		return strings.TrimSuffix(strings.TrimSuffix(fmt.Sprintf("%.3f", f), "0"), "0")
+	}
 	fix := func(s string) string {
 		if strings.HasSuffix(s, ".") {
 			return s + "0"
